@@ -193,8 +193,21 @@ class ScalarHarness:
         eng.assign(stmt.target, STup([STup([SI(x) for x in p]), coef]), env)
         skipped = False
         nz0 = len(getattr(eng, "zero_facts", []))
+
+        def binary_numbers_fixed():
+            # the degeneracy test must look at the denominator WHERE IT IS EVALUATED: the number of a fermion / spin mode that the term changes is zero there
+            # (the canonical form f(N) c / c^+ f(N)), so the tested expression may not depend on it - otherwise a resonance that only shows at N = 0 slips through
+            for _z, dcoef in getattr(eng, "zero_facts", [])[nz0:]:
+                for j in range(k):
+                    if layout[j] in ("spin", "fermion"):
+                        at0 = list(n)
+                        at0[j] = z3.IntVal(0)
+                        eng.oblige(f"degeneracy-test-evaluates-the-number-of-a-changed-binary-mode-at-zero[mode {j}]",
+                                   z3.Implies(p[j] != 0, dcoef.at(list(n)) == dcoef.at(at0)),
+                                   detail="omega a^+a + omega s^+s + g (a^+ s + s^+ a): the denominator omega N_s is not identically zero but vanishes where it is used")
         try:
             eng.exec_block(stmt.body, env)
+            binary_numbers_fixed()
         except _Cont:
             skipped = True
         except _Brk:
@@ -202,6 +215,7 @@ class ScalarHarness:
         except PyRaise as pr:
             # the only rejection: the energy denominator of this term vanishes identically (sympy's structural `== 0`, A-SY1) - the term couples levels of equal energy
             zf = getattr(eng, "zero_facts", [])[nz0:]
+            binary_numbers_fixed()
             eng.oblige("term-rejected-only-with-ValueError-for-an-identically-vanishing-energy-denominator",
                        z3.BoolVal(pr.exc.cls == "ValueError" and len(zf) >= 1), detail=f"{pr.exc.cls}; zero tests on this path: {len(zf)}")
             self.rejected = True
